@@ -93,7 +93,7 @@ class AdaptiveAdapter(Adapter):
             data = None if batch is None else np.array([self._point(e[0], e[1])[0] for e in batch])
             w = None
             if batch is not None and (any(e[2] != 1 for e in batch) or self.wden != 1):
-                w = np.array([self._w(e[2]) for e in batch])
+                w = np.array([self._w(e[2]) for e in batch], dtype=float)      # weighted prefill -> float histogram
             return self.physt.h1(data, "fixed_width", adaptive=True, weights=w, **kw)
         data = None if batch is None else np.array([self._point(e[0], e[1]) for e in batch])
         w = None
@@ -175,6 +175,8 @@ class AdaptiveAdapter(Adapter):
         shape = tuple(ax["count"] for ax in axes)
         f = np.asarray(h.frequencies)
         e = np.asarray(h.errors2)
+        if "dtype_consistent" in view and not (np.dtype(h.dtype) == f.dtype == e.dtype):
+            fail("dtype_consistent", "reported dtype == dtype of frequencies == dtype of errors2", [str(np.dtype(h.dtype)), str(f.dtype), str(e.dtype)])
         if f.shape != shape or e.shape != shape:
             fail("shape", shape, [f.shape, e.shape])
             return
